@@ -84,12 +84,18 @@ def pad_attr_tokens(f, sp, used_zchar_as_pad):
     return out
 
 
+# documentation strings are content: runs of blanks, tabs, line breaks (the token rule allows them), per cent signs, quotes and
+# comment look-alikes inside them must survive every tool untouched
+DOC_TEXTS = ['doc %d', 'doc %d', 'two  spaces   %d', 'tab\there %d', 'first line %d\nsecond line', 'line %d\n\n    indented third line\n', '100%% of %d %%d %%s %%v %%!',
+             '"quoted" \'q\' %d', '// not a comment %d', '{ } , ; [ ] : = %d', ' leading and trailing blank %d ', 'accents \u00e9\u00fc\u4e2d %d']
+
+
 def doc_tokens(f, sp):
     d = getattr(f, 'doc', None)
     if sp.rng is not None and sp.pick('doc_toggle', False) and sp.force.get('doc_toggle', True):
         if d:
             return [] if sp.rng.random() < 0.5 else ['`%s changed`' % d]
-        return ['`doc %d`' % sp.rng.randint(0, 999)]
+        return ['`%s`' % (sp.rng.choice(DOC_TEXTS) % sp.rng.randint(0, 999))]
     if d:
         return ['`%s`' % d]
     return []
@@ -300,8 +306,9 @@ def layout(toks, style='pretty', rng=None, eol='\n'):
             newline()
 
     def emit(s):
-        nonlocal col_start
+        nonlocal col_start, line
         out.append(s)
+        line += s.count('\n')      # a documentation string may span lines
         col_start = False
 
     for i, tk in enumerate(toks):
@@ -426,11 +433,11 @@ def insert_comments(toks, rng, p=0.15, counter=None):
     for i, t in enumerate(toks):
         if t is not NL and rng.random() < p:
             n[0] += 1
-            out.append(Comment('// c%d %s' % (n[0], rng.choice(['note', 'x y z', '{ } , ;', 'packet A {', '`doc`'])), own_line=True))
+            out.append(Comment('// c%d %s' % (n[0], rng.choice(['note', 'x y z', '{ } , ;', 'packet A {', '`doc`', '100% %d %s', 'two  blanks\tand a tab', '"str" \'0\' `'])), own_line=True))
         out.append(t)
         if t is not NL and not isinstance(t, Comment) and rng.random() < p / 2:
             n[0] += 1
-            out.append(Comment('// t%d trailing' % n[0], own_line=False))
+            out.append(Comment('// t%d trailing%s' % (n[0], rng.choice(['', '', ' 50% %s', '  x'])), own_line=False))
     return out
 
 
